@@ -335,4 +335,101 @@ Section Reader.
       rewrite Q2, Hh2. rewrite firstn_app_exact by lia. reflexivity.
   Qed.
 
+  (* ---- chunk headers ------------------------------------------------------------------------- *)
+  Ltac zb1 :=
+    match goal with
+    | |- context [Z.eqb ?a ?b] =>
+        first [ destruct (Z.eqb_spec a b) as [?Hz|?Hz]; [exfalso; lia|]
+              | destruct (Z.eqb_spec a b) as [?Hz|?Hz]; [|exfalso; lia] ]
+    | |- context [Z.leb ?a ?b] =>
+        first [ destruct (Z.leb_spec a b) as [?Hz|?Hz]; [exfalso; lia|]
+              | destruct (Z.leb_spec a b) as [?Hz|?Hz]; [|exfalso; lia] ]
+    | |- context [Z.ltb ?a ?b] =>
+        first [ destruct (Z.ltb_spec a b) as [?Hz|?Hz]; [exfalso; lia|]
+              | destruct (Z.ltb_spec a b) as [?Hz|?Hz]; [|exfalso; lia] ]
+    end.
+
+  Lemma at_boundary_reset r h s : at_boundary r h s ->
+    exists w1, lzwin_reset (m_win s) = Ok w1 /\ Rel w1 [] /\ w_size w1 = dict /\ w_start w1 = 0 /\ w_pos w1 = 0 /\
+               w_full w1 = 0 /\ w_pending_len w1 = 0.
+  Proof.
+    intros (_ & _ & _ & _ & _ & (Hsz & Hpl & _) & _).
+    destruct (reset_rel (m_win s)) as (w1 & H1 & H2 & H3 & H4 & H5 & H6 & H7 & _); try lia.
+    exists w1. split; [exact H1|]. split; [exact H2|]. repeat split; lia.
+  Qed.
+
+  Lemma header_unc r h s n rest :
+    at_boundary r h s -> 1 <= n <= 65536 -> m_in s = unc_header r n ++ rest ->
+    exists w1,
+      lzma2_chunk_header s =
+        Ok (mkLzma2 rest w1 (m_rc s) (m_probs s) (m_coder s) n false false
+                    (match r with RDict => true | _ => m_need_props s end) false (m_error s)) /\
+      match r with RDict => lzwin_reset (m_win s) = Ok w1 | _ => w1 = m_win s end.
+  Proof.
+    intros Hb Hn Hin. pose proof (at_boundary_reset _ _ _ Hb) as (wr & Hreset & _).
+    destruct Hb as (_ & _ & _ & _ & (_ & _ & Hnd) & _).
+    pose proof (u16_bytes (n - 1) ltac:(lia)) as H16.
+    unfold lzma2_chunk_header. rewrite Hin. unfold unc_header. cbn [app read_u8 obind].
+    destruct r as [c t| | |]; cbn [unc_ctl].
+    1-3: change (2 =? 0) with false; change ((224 <=? 2) || (2 =? 1)) with false; cbv iota;
+         destruct (m_need_dict_reset s); [specialize (Hnd eq_refl); discriminate Hnd|];
+         cbn [obind]; change (128 <=? 2) with false; change (2 <? 2) with false; cbv iota;
+         cbn [read_u16_be obind]; rewrite H16; replace (n - 1 + 1) with n by lia;
+         exists (m_win s); split; reflexivity.
+    change (1 =? 0) with false. change ((224 <=? 1) || (1 =? 1)) with true. cbv iota.
+    rewrite Hreset. cbn [obind]. change (128 <=? 1) with false. change (2 <? 1) with false. cbv iota.
+    cbn [read_u16_be obind]. rewrite H16. replace (n - 1 + 1) with n by lia.
+    exists wr. split; reflexivity.
+  Qed.
+
+  Lemma header_lzma r h s usize body bytes d0 :
+    at_boundary r h s -> 1 <= usize <= 2097152 -> 1 <= zlen body <= 65536 ->
+    rdec_init body = Ok d0 ->
+    m_in s = lzma_header lc lp pb r usize (zlen body) ++ body ++ bytes ++ tail ->
+    exists w1,
+      lzma2_chunk_header s =
+        Ok (mkLzma2 (bytes ++ tail) w1 d0 (start_probs r) (Some (start_coder lc lp pb r)) usize true
+                    false false false (m_error s)) /\
+      match r with RDict => lzwin_reset (m_win s) = Ok w1 | _ => w1 = m_win s end.
+  Proof.
+    intros Hb Hu Hc Hd0 Hin. pose proof (at_boundary_reset _ _ _ Hb) as (wr & Hreset & _).
+    destruct Hb as (_ & _ & _ & _ & (Hco & Hnp & Hnd) & _).
+    pose proof (u16_bytes (zlen body - 1) ltac:(lia)) as H16.
+    pose proof (rdec_prepare_of_init body (bytes ++ tail) d0 Hd0) as Hprep.
+    assert (Hc0 : In (lzma_ctl0 r) [128; 160; 192; 224]) by (destruct r; cbn; tauto).
+    destruct (lzma_ctl_decode (lzma_ctl0 r) usize Hc0 Hu) as (Hctl & Hx & Hus).
+    unfold lzma2_chunk_header. rewrite Hin. unfold lzma_header. cbn [app read_u8 obind]. rewrite Hctl.
+    set (x := (usize - 1) / 65536) in *.
+    destruct r as [c t| | |]; cbn [lzma_ctl0 has_props start_probs start_coder app] in *.
+    - (* 0x80 *)
+      destruct Hco as (Hco & Hpr & _).
+      zb1. replace ((224 <=? 128 + x) || (128 + x =? 1)) with false by (symmetry; apply orb_false_iff; split; lia).
+      destruct (m_need_dict_reset s); [specialize (Hnd eq_refl); discriminate Hnd|].
+      destruct (m_need_props s); [specialize (Hnp eq_refl); discriminate Hnp|].
+      cbn [obind]. zb1. cbn [read_u16_be obind]. rewrite Hus, H16. replace (zlen body - 1 + 1) with (zlen body) by lia.
+      zb1. zb1. cbn [obind]. rewrite Hprep. cbn [obind]. rewrite Hco, Hpr.
+      exists (m_win s). split; reflexivity.
+    - (* 0xA0 *)
+      destruct Hco as (cr & Hco & Hp1 & Hp2 & Hp3).
+      zb1. replace ((224 <=? 160 + x) || (160 + x =? 1)) with false by (symmetry; apply orb_false_iff; split; lia).
+      destruct (m_need_dict_reset s); [specialize (Hnd eq_refl); discriminate Hnd|].
+      destruct (m_need_props s); [specialize (Hnp eq_refl); discriminate Hnp|].
+      cbn [obind]. zb1. cbn [read_u16_be obind]. rewrite Hus, H16. replace (zlen body - 1 + 1) with (zlen body) by lia.
+      zb1. zb1. cbn [obind]. rewrite Hprep. cbn [obind]. rewrite Hco.
+      unfold coder_reset. rewrite Hp1, Hp2, Hp3.
+      exists (m_win s). split; reflexivity.
+    - (* 0xC0 *)
+      zb1. replace ((224 <=? 192 + x) || (192 + x =? 1)) with false by (symmetry; apply orb_false_iff; split; lia).
+      destruct (m_need_dict_reset s); [specialize (Hnd eq_refl); discriminate Hnd|].
+      cbn [obind]. zb1. cbn [read_u16_be obind]. rewrite Hus, H16. replace (zlen body - 1 + 1) with (zlen body) by lia.
+      zb1. rewrite decode_props_ok by assumption. cbn [obind]. rewrite Hprep. cbn [obind].
+      exists (m_win s). split; reflexivity.
+    - (* 0xE0 *)
+      zb1. replace ((224 <=? 224 + x) || (224 + x =? 1)) with true by (symmetry; apply orb_true_iff; left; lia).
+      rewrite Hreset. cbn [obind]. zb1. cbn [read_u16_be obind]. rewrite Hus, H16.
+      replace (zlen body - 1 + 1) with (zlen body) by lia.
+      zb1. rewrite decode_props_ok by assumption. cbn [obind]. rewrite Hprep. cbn [obind].
+      exists wr. split; reflexivity.
+  Qed.
+
 End Reader.
